@@ -71,6 +71,8 @@ inductive Ev where
   | rxclose
   | wake
   | register
+  | subj (k : Nat)
+  | gunsub (k : Nat)
   deriving DecidableEq, Repr, Inhabited
 
 /-- The effects of one method call, in order. -/
@@ -169,6 +171,9 @@ def chanClosed (c : Chan) (gone : Bool) : Bool := c == Chan.closed || gone
 /-- an `AtomicWaker` (its content is the executor's business) -/
 structure Waker where
   deriving DecidableEq, Repr
+/-- a new subscriber is added to the subject token `k` / the subject token is torn down -/
+def emitSubj (k : Nat) : Out := [Ev.subj k]
+def emitGrpUnsub (k : Nat) : Out := [Ev.gunsub k]
 def emitWake : Out := [Ev.wake]
 def emitRegister : Out := [Ev.register]
 /-- `result.expect(..)` / `result.unwrap()` -/
